@@ -47,6 +47,29 @@ def standard_registry(P, J=None):
     return J, robj, [x.v for x in labels.items]
 
 
+def distinct(*pairs):
+    """assumption: the named symbols of each pair stand for different numbers"""
+    want = set()
+    for a, b in pairs:
+        want.add((repr(ep.sym(a)), repr(ep.sym(b))))
+        want.add((repr(ep.sym(b)), repr(ep.sym(a))))
+
+    def fn(cond):
+        if isinstance(cond, Cond) and cond.kind == "cmp" and len(cond.args) == 3 and cond.args[0] in ("==", "!="):
+            x, y = cond.args[1], cond.args[2]
+            if isinstance(x, Num) and isinstance(y, Num) and (repr(x.rf), repr(y.rf)) in want:
+                return cond.args[0] == "!="
+        return None
+    fn.text = "parameters written with different names stand for different numbers: %s" % (sorted(pairs),)
+    return fn
+
+
+def value_key(I, v):
+    """a comparable description of what a callable returns at the symbolic separation r"""
+    out = I.call(v, [Num(ep.sym("r"))], {})
+    return out.key() if hasattr(out, "key") else repr(out)
+
+
 def tableform_classes(P):
     """the interpolation classes the table-form builder finds by introspection of atsim.potentials.tableforms: classes whose
     class body sets is_potential = True, with their config_label -> [(label, ClassInfo)]"""
